@@ -76,6 +76,19 @@ def scenarios():
   S['varargs-nested-factory'] = (lambda: fdl.Partial(posonly_target, 1, 2, 3, [fdl.ArgFactory(Fresh)], 9),
                                  {'args': 'fresh'})
   # (config factory, predicate describing which argument slots must be fresh per call)
+  # several sibling containers each holding factories (every one of them is evaluated per call)
+  S['sibling-lists-with-factories'] = (
+      lambda: fdl.Partial(target, a=[[fdl.ArgFactory(Fresh)], [fdl.ArgFactory(Fresh)], [fdl.ArgFactory(Fresh)]]),
+      {'a': 'fresh'})
+  S['sibling-dicts-with-factories'] = (
+      lambda: fdl.Partial(target, a={'x': {'f': fdl.ArgFactory(Fresh)}, 'y': {'g': (fdl.ArgFactory(Fresh),)}}),
+      {'a': 'fresh'})
+  S['factory-then-container-with-factory'] = (
+      lambda: fdl.Partial(target, a=(fdl.ArgFactory(Fresh), [fdl.ArgFactory(Fresh)], {'k': [fdl.ArgFactory(Fresh)]})),
+      {'a': 'fresh'})
+  S['sibling-containers-in-varargs'] = (
+      lambda: fdl.Partial(posonly_target, 1, 2, 3, [[fdl.ArgFactory(Fresh)], [fdl.ArgFactory(Fresh)]]),
+      {'args': 'fresh'})
   S['factory-direct'] = (lambda: fdl.Partial(target, a=fdl.ArgFactory(Fresh)), {'a': 'fresh'})
   S['factory-in-list'] = (lambda: fdl.Partial(target, a=[fdl.ArgFactory(Fresh), 1]), {'a': 'fresh'})
   S['factory-in-tuple'] = (lambda: fdl.Partial(target, a=(fdl.ArgFactory(Fresh), 1)), {'a': 'fresh'})
@@ -108,7 +121,7 @@ def check_scenario(name):
     vals = [o[slot] for o in outs]
     idsets = [set(ids(v)) for v in vals]
     if mode == 'fresh':
-      if _has_wrapper(vals[0]):
+      if any(_has_wrapper(v) for v in vals):
         bad(f'slot {slot}: the ArgFactory was not evaluated (raw factory wrapper passed through)')
       for i, j in itertools.combinations(range(3), 2):
         if idsets[i] & idsets[j]:
@@ -140,7 +153,8 @@ def check_scenario(name):
       if vals[0].a[0] is not vals[1].a[0]:
         bad(f'slot {slot}: a Config inside an ArgFactory was rebuilt per call')
   # call-time keywords override configured ones
-  okey = 'k' if 'posonly' in name or name in ('positional-factory', 'varargs-factory', 'varargs-nested-factory') else 'c'
+  okey = 'k' if 'posonly' in name or name in ('positional-factory', 'varargs-factory', 'varargs-nested-factory',
+                                          'sibling-containers-in-varargs') else 'c'
   o = built(**{okey: 'override'})
   if o[okey] != 'override':
     bad('call-time keyword did not override the configured argument')
